@@ -11,8 +11,11 @@ OPS = {"+", "-", "*", "/", "%", "^", "&", "|", "+=", "-=", "*=", "/=", "%=", "^=
 DEFAULT_ATOMS = {"3", "1.5", '"s"', "A"}
 
 
+RELAXED = [False]
+
+
 def is_ident(t):
-    if t in RESERVED:
+    if t in RESERVED and not (RELAXED[0] and t not in ("std::", "#include", "unsigned char", "enum class", "enum struct")):
         return False
     if t.isdigit():
         return True
@@ -118,8 +121,29 @@ class R:
     def default(self, i):
         out = set()
         for j in self.lit(i, "="):
-            if j < self.n and self.t[j] in DEFAULT_ATOMS:
-                out.add(j + 1)
+            if not RELAXED[0]:
+                if j < self.n and self.t[j] in DEFAULT_ATOMS:
+                    out.add(j + 1)
+                continue
+            # the tool copies a default expression verbatim: any non-empty run of tokens up to a top-level , ; or
+            # closing bracket, with () [] {} <> balanced inside
+            depth, k = [], j
+            pairs = {")": "(", "]": "[", "}": "{", ">": "<"}
+            while k < self.n:
+                t = self.t[k]
+                if t in "([{<" and len(t) == 1:
+                    depth.append(t)
+                elif t in pairs:
+                    if not depth:
+                        break
+                    if depth[-1] != pairs[t]:
+                        break
+                    depth.pop()
+                elif t in (",", ";") and not depth:
+                    break
+                k += 1
+                if not depth:
+                    out.add(k)
         return out
 
     def arg(self, i):
@@ -248,8 +272,14 @@ class R:
         out = set()
         for j in self.lit(i, "#include"):
             for k in self.lit(j, "<"):
-                if k < self.n and self.t[k] not in (">",):
-                    out |= self.lit(k + 1, ">")
+                if not RELAXED[0]:
+                    if k < self.n and self.t[k] not in (">",):
+                        out |= self.lit(k + 1, ">")
+                    continue
+                m = k                      # the header is copied verbatim: any tokens up to the first >
+                while m < self.n and not self.t[m].startswith(">"):
+                    m += 1
+                out |= self.lit(m, ">")
         return out
 
     def typedef(self, i):
@@ -277,5 +307,10 @@ class R:
         return self.n in self.star(0, lambda x: self.m("decl", x))
 
 
-def well_formed(tokens):
-    return R(list(tokens)).module()
+def well_formed(tokens, relaxed=False):
+    """relaxed: reserved words may be used as identifiers (what the tool's scannerless grammar allows)"""
+    RELAXED[0] = relaxed
+    try:
+        return R(list(tokens)).module()
+    finally:
+        RELAXED[0] = False
